@@ -236,6 +236,50 @@ func ruleTreeThresholds(c *Ctx, r *R) {
 				}
 			}
 		})
+		if !good {
+			// mergeTwo inlined into merge: the pair is chosen by assignments (`right = x` under the test, `left = x` otherwise);
+			// the left sibling survives as the left node of the pair only on the edge on which left.n <= minKVs was established
+			isLeftSib := func(v ssa.Value) bool {
+				ex, ok := resolveVal(v).(*ssa.Extract)
+				if !ok || ex.Index != 0 {
+					return false
+				}
+				call, ok := ex.Tuple.(*ssa.Call)
+				return ok && staticCallee(&call.Call) != nil && fname(staticCallee(&call.Call)) == "siblings"
+			}
+			nEdges, okEdges := 0, 0
+			instrs(mg, func(b *ssa.BasicBlock, _ int, in ssa.Instruction) {
+				phi, ok := in.(*ssa.Phi)
+				if !ok {
+					return
+				}
+				hasOther := false
+				for _, e := range phi.Edges {
+					if !isLeftSib(e) {
+						hasOther = true
+					}
+				}
+				if !hasOther {
+					return
+				}
+				for k, e := range phi.Edges {
+					if !isLeftSib(e) {
+						continue
+					}
+					nEdges++
+					pb := b.Preds[k]
+					for _, g := range append(guardsOf(pb), guardsOfSelf(pb)...) {
+						if cf, ok := g.asCmp(); ok && cf.op == token.LEQ && valueProv(cf.x, cf.env()).String() == valueProv(e, provEnv{}).String()+".n" {
+							if v, okc := evalConst(cf.y, 0); okc && v == mn {
+								okEdges++
+								break
+							}
+						}
+					}
+				}
+			})
+			good = nEdges > 0 && nEdges == okEdges
+		}
 		r.ok(good, "tree.btree.merge|left-sibling-fits", mg.Pos(), "merge may pick the left sibling only under left.n <= minKVs (so that both nodes plus the separator fit one node)")
 	}
 }
